@@ -153,6 +153,26 @@ def run(tier, seed):
                 if out["status"] != "ok":
                     continue
                 decide(ctx, drv, name, args, cb, out["coefs"], bound_for(name, args), {"generator": name, "args": args, "chebyshev_basis": cb})
+    # cosine / sine at EVERY early zero of the Bessel functions whose values are their series coefficients (first zeros of
+    # J_0 .. J_12, second zeros of J_0 .. J_8): a coefficient in the middle of the series vanishes there while later ones
+    # are of order 0.3 - whatever the series loop does with a vanishing term, the result must stay below 0.5 (1 + epsilon)
+    import scipy.special
+    for name in ("cosine", "sine") if "cosine" in G.REG else [n_ for n_ in G.REG if G.REG[n_][1] in ("cos", "sin")]:
+        odd = G.REG[name][1] == "sin"
+        zs = [(n_, 1, float(scipy.special.jn_zeros(n_, 1)[0])) for n_ in range(1 if odd else 0, 13, 2)]
+        zs += [(n_, 2, float(scipy.special.jn_zeros(n_, 2)[1])) for n_ in range(1 if odd else 0, 9, 2)]
+        for n_, m_, z in zs:
+            for cb in (True, False):
+                if z > (30.0 if cb else 12.0):
+                    continue
+                if tier == "quick" and not cb and (n_ + m_) % 2:
+                    continue
+                args = {"tau": z, "epsilon": (0.1 if (n_ // 2 + m_) % 2 else 0.01)}
+                out = G.call(PL, name, args, True, False, cb)
+                ctx.count("bessel-zero:" + name)
+                ctx.case(["bessel-zero", name, args, cb], True, {"generator": name, "args": args, "chebyshev_basis": cb, "status": out["status"], "zero_of": "J_%d #%d" % (n_, m_)})
+                if out["status"] == "ok":
+                    decide(ctx, drv, name, args, cb, out["coefs"], bound_for(name, args), {"generator": name, "args": args, "chebyshev_basis": cb})
     ctx.assumptions = ["monomial outputs are converted exactly to the Chebyshev basis by the model (poly2cheb_spec)"]
     ctx.extra["argument_types"] = dict(G.ARG_TYPES)
     return ctx.finish(
